@@ -84,6 +84,23 @@ func (s *session) capture(c fiber.Ctx, step int, keep bool) []*entry {
 			out = append(out, newStrs(acc, key, v, step))
 		}
 	}
+	// F: an accessor called in another FORM than the plain one (a default value given although
+	// the value is present, the key spelled in another case). What comes back when the default is
+	// taken is the caller's own string: nothing of the framework's, not kept.
+	F := func(acc, form, key, v, dflt string) {
+		if keep && v != "" && v != dflt {
+			e := newStr(acc, key, v, step)
+			e.Form = form
+			out = append(out, e)
+		}
+	}
+	FB := func(acc, form, key string, v []byte, dflt string) {
+		if keep && len(v) > 0 && string(v) != dflt {
+			e := newBytes(acc, key, v, step)
+			e.Form = form
+			out = append(out, e)
+		}
+	}
 	MSS := func(acc, key string, v map[string]string) {
 		if keep {
 			out = append(out, newMapSS(acc, key, v, step))
@@ -103,6 +120,11 @@ func (s *session) capture(c fiber.Ctx, step int, keep bool) []*entry {
 		S("Params", k, c.Params(k))
 		S("Params[string]", k, fiber.Params[string](c, k))
 		B("Params[[]byte]", k, fiber.Params[[]byte](c, k))
+		F("Params", "default-given", k, c.Params(k, dfltStr), dfltStr)
+		F("Params[string]", "default-given", k, fiber.Params[string](c, k, dfltStr), dfltStr)
+		if u := otherCase[k]; u != "" {
+			F("Params", "other-case-key", k, c.Params(u), "")
+		}
 	}
 	S("Path", "", c.Path())
 	S("OriginalURL", "", c.OriginalURL())
@@ -113,16 +135,21 @@ func (s *session) capture(c fiber.Ctx, step int, keep bool) []*entry {
 		S("Query", k, c.Query(k))
 		S("Query[string]", k, fiber.Query[string](c, k))
 		B("Query[[]byte]", k, fiber.Query[[]byte](c, k))
+		F("Query", "default-given", k, c.Query(k, dfltStr), dfltStr)
+		FB("Query[[]byte]", "default-given", k, fiber.Query[[]byte](c, k, dfltBytes), dfltStr)
 	}
 	MSS("Queries", "", c.Queries())
 	for _, k := range headerKeys {
 		S("Get", k, c.Get(k))
 		S("GetReqHeader[string]", k, fiber.GetReqHeader[string](c, k))
 		B("GetReqHeader[[]byte]", k, fiber.GetReqHeader[[]byte](c, k))
+		F("Get", "default-given", k, c.Get(k, dfltStr), dfltStr)
+		FB("GetReqHeader[[]byte]", "default-given", k, fiber.GetReqHeader[[]byte](c, k, dfltBytes), dfltStr)
 	}
 	MSL("GetReqHeaders", "", c.GetReqHeaders())
 	for _, k := range cookieKeys {
 		S("Cookies", k, c.Cookies(k))
+		F("Cookies", "default-given", k, c.Cookies(k, dfltStr), dfltStr)
 	}
 	S("Host", "", c.Host())
 	S("Hostname", "", c.Hostname())
@@ -137,6 +164,7 @@ func (s *session) capture(c fiber.Ctx, step int, keep bool) []*entry {
 	B("BodyRaw", "", c.BodyRaw())
 	for _, k := range formKeys {
 		S("FormValue", k, c.FormValue(k))
+		F("FormValue", "default-given", k, c.FormValue(k, dfltStr), dfltStr)
 	}
 	if form, err := c.MultipartForm(); err == nil && form != nil {
 		for _, k := range sortedKeys(form.Value) {
@@ -158,6 +186,7 @@ func (s *session) capture(c fiber.Ctx, step int, keep bool) []*entry {
 	S("Route.Path", "", c.Route().Path)
 	SS("Route.Params", "", c.Route().Params)
 	S("GetRespHeader", "X-Echo", c.GetRespHeader("X-Echo"))
+	F("GetRespHeader", "default-given", "X-Echo", c.GetRespHeader("X-Echo", dfltStr), dfltStr)
 	MSL("GetRespHeaders", "", c.GetRespHeaders())
 
 	// flash messages (present when the request carries a fiber_flash cookie)
@@ -316,6 +345,23 @@ var (
 	cookieKeys = []string{"sid", "theme", "l", "other", "fiber_flash"}
 	formKeys   = []string{"name", "tags", "tags[]", "note", "b", "q"}
 )
+
+// call forms: the default handed to the accessors, and the parameter names in another case
+// (Params compares names case-insensitively unless CaseSensitive is set).
+const dfltStr = "harness-default-value"
+
+var (
+	dfltBytes = []byte(dfltStr)
+	otherCase = map[string]string{}
+)
+
+func init() {
+	for _, k := range paramKeys {
+		if u := strings.ToUpper(k); u != k {
+			otherCase[k] = u
+		}
+	}
+}
 
 func sortedKeys[V any](m map[string]V) []string {
 	ks := make([]string, 0, len(m))
